@@ -240,6 +240,10 @@ type LexParams struct {
 	ContinueAfterInvalid                                          bool
 	PropagateAttErr                                               bool
 	MaxEvents                                                     int
+	// BufMode: what is passed to Next as the caller's buffer. 0 nil (a fresh slice per token);
+	// 1 one fixed 24-byte buffer every time; 2 the documented idiom: keep the largest slice returned
+	// so far and hand it back. Tokens are parsed (deep-copied) before the next call in every mode.
+	BufMode int
 }
 
 // LexResult is the outcome of draining a lexer.
@@ -302,12 +306,26 @@ func LexAll(r io.Reader, p LexParams, keepRaw bool) (res LexResult) {
 		return res
 	}
 	defer lx.Close()
+	var smallBuf [24]byte
+	var growBuf []byte
 	for {
 		if p.MaxEvents > 0 && len(res.Events) > p.MaxEvents {
 			res.Err = fmt.Errorf("harness: more than %d events", p.MaxEvents)
 			return res
 		}
-		tt, rec, err := lx.Next(nil)
+		var callerBuf []byte
+		if !keepRaw {
+			switch p.BufMode {
+			case 1:
+				callerBuf = smallBuf[:]
+			case 2:
+				callerBuf = growBuf
+			}
+		}
+		tt, rec, err := lx.Next(callerBuf)
+		if p.BufMode == 2 && cap(rec) > cap(growBuf) {
+			growBuf = rec[:0]
+		}
 		if err != nil {
 			if tt == mcap.TokenInvalidChunk {
 				res.Events = append(res.Events, Event{Kind: "invalidchunk"})
@@ -404,6 +422,14 @@ func (r *IterResult) Clean() bool { return r.Panic == "" && r.OpenErr == nil && 
 
 // ReadMessages opens a reader on rs and drains Messages(opts...).
 func ReadMessages(r io.Reader, withMetaCB bool, keepOrig bool, maxItems int, opts ...mcap.ReadOpt) (res IterResult) {
+	return ReadMessagesMode(r, 0, withMetaCB, keepOrig, maxItems, opts...)
+}
+
+// ReadMessagesMode is ReadMessages with a choice of how the iterator is driven: 0 NextInto(nil) (a new
+// Message per item); 1 NextInto(msg) with one Message reused for the whole read, as the documentation
+// recommends; 2 the deprecated Next(buf), handing back the previous item's Data as the buffer. Items are
+// deep-copied before the next call in every mode.
+func ReadMessagesMode(r io.Reader, mode int, withMetaCB bool, keepOrig bool, maxItems int, opts ...mcap.ReadOpt) (res IterResult) {
 	defer func() {
 		if x := recover(); x != nil {
 			res.Panic = fmt.Sprint(x)
@@ -426,12 +452,32 @@ func ReadMessages(r io.Reader, withMetaCB bool, keepOrig bool, maxItems int, opt
 		res.OpenErr = err
 		return res
 	}
+	var reused mcap.Message
+	var prevData []byte
 	for {
 		if maxItems > 0 && len(res.Items) > maxItems {
 			res.Err = fmt.Errorf("harness: more than %d items", maxItems)
 			return res
 		}
-		s, c, m, err := it.NextInto(nil)
+		var s *mcap.Schema
+		var c *mcap.Channel
+		var m *mcap.Message
+		var err error
+		switch mode {
+		case 1:
+			s, c, m, err = it.NextInto(&reused)
+			if err == nil && m != &reused {
+				res.Err = fmt.Errorf("harness: NextInto(msg) returned a different *Message than the one passed in")
+				return res
+			}
+		case 2:
+			s, c, m, err = it.Next(prevData)
+			if err == nil {
+				prevData = m.Data
+			}
+		default:
+			s, c, m, err = it.NextInto(nil)
+		}
 		if err != nil {
 			res.Err = err
 			return res
